@@ -31,6 +31,8 @@ def case_rng(seed, i):
 
 
 def make_case(seed, i, profile):
+    if profile == "exh":
+        return gen.exh_spec(i)
     rng = case_rng(seed, i)
     spec = gen.gen_spec(rng, profile)
     params = gen.gen_params(rng, spec)
